@@ -144,23 +144,35 @@ func matchesContentType(ct string, allowed []string) bool {
 	return false
 }
 
+// gzipConfigInt reads a numeric gzip option. YAML decodes "5" as int and "5.0" as
+// float64 (JSON decodes every number as float64), so all of them are accepted.
+func gzipConfigInt(cfg map[string]interface{}, key string) (int, bool) {
+	switch v := cfg[key].(type) {
+	case int:
+		return v, true
+	case int64:
+		return int(v), true
+	case float64:
+		return int(v), true
+	default:
+		return 0, false
+	}
+}
+
 func parseGzipConfig(cfg map[string]interface{}) (int, int, []string, error) {
-	// numbers are unmarshalled into float64 by default
-	levelFloat, ok := cfg["level"].(float64)
+	level, ok := gzipConfigInt(cfg, "level")
 	if !ok {
 		return 0, 0, nil, fmt.Errorf("expected level for gzip config")
 	}
-	level := int(levelFloat)
 	// Allow -1 (DefaultCompression), 0 (NoCompression), or 1-9
 	if level < -1 || level > 9 {
 		return 0, 0, nil, fmt.Errorf("compression level must be between -1 and 9, got %d", level)
 	}
 
-	minSizeFloat, ok := cfg["min_size"].(float64)
+	minSize, ok := gzipConfigInt(cfg, "min_size")
 	if !ok {
 		return 0, 0, nil, fmt.Errorf("expected min_size for gzip config")
 	}
-	minSize := int(minSizeFloat)
 
 	rawTypes, ok := cfg["content_types"].([]interface{})
 	if !ok {
